@@ -613,4 +613,27 @@ theorem checkRounds_ok_iff (utg : String → UpkeepType) (wg : String → Trigge
         · exact a3.2.2 _ hs _ (List.mem_map.mpr ⟨p, hp, rfl⟩) rfl
         · exact a4 p (Or.inr hp) hs
 
+/-! ### vocabulary of the tie theorems (Props/C15, `…_matches_source`) -/
+
+/-- `(*big.Int).Cmp`: -1, 0, +1 -/
+def bigCmp (a b : Int) : Int := if a < b then -1 else if a = b then 0 else 1
+
+theorem bigCmp_neg (a b : Int) : bigCmp a b < 0 ↔ a < b := by
+  unfold bigCmp; split
+  · simp [*]
+  · split <;> simp [*]
+
+theorem bigCmp_pos (a b : Int) : bigCmp a b > 0 ↔ a > b := by
+  unfold bigCmp; split
+  · simp; omega
+  · split
+    · simp; omega
+    · simp; omega
+
+/-- `types.UpkeepType` as the number the Go constant stands for (`ConditionTrigger = iota`, `LogTrigger`) -/
+def typeCode : UpkeepType → Nat
+  | .condition => 0
+  | .log => 1
+  | .other => 2
+
 end AutoVerif.C15
